@@ -367,10 +367,28 @@ class MiniEval:
     Values: python int (signed, normalised to the instruction's width) or ('sym', text).
     hook(ins, argvals, mem) -> value | None: called for every call; None = opaque (symbolic result, memory untouched).
     Outcomes: list of ('ret', value, mem) | ('exit', callee, argvals, mem) | ('dead', mem)."""
-    def __init__(s, prog, hook=None, max_steps=40000, max_paths=256):
+    def __init__(s, prog, hook=None, max_steps=40000, max_paths=256, memo=False, inline=True, stop=None):
+        """memo: a branch on a symbolic condition that was already decided on this path (same memory cell, not stored
+        since) takes the same edge again (`if (!optarg && ..) .. if (!optarg)`).  inline: evaluate small callees that
+        get a concrete argument.  stop: instruction at which a path ends with outcome ('hit', regs, mem)."""
         s.prog = prog; s.hook = hook; s.max_steps = max_steps; s.max_paths = max_paths
-        s.steps = 0; s.paths = 0
+        s.steps = 0; s.paths = 0; s.memo = memo; s.inline = inline; s.stop = stop
         s.nr = prog.noreturn()
+    @staticmethod
+    def _norm(p):
+        """(base payload, polarity): the symbolic condition p is true iff base is true == polarity"""
+        pol = True
+        while isinstance(p, tuple):
+            if p and p[0] == 'not': pol = not pol; p = p[1]
+            elif p and p[0] == 'cmp' and p[3] == 0 and p[1] in ('ne', 'eq'):
+                if p[1] == 'eq': pol = not pol
+                p = p[2]
+            else: break
+        return p, pol
+    @staticmethod
+    def _mentions(p, k):
+        if p == k: return True            # the cell itself, or a cell reached through it (('deref', k), a field of *k)
+        return isinstance(p, tuple) and any(MiniEval._mentions(q, k) for q in p if isinstance(q, tuple))
     def key(s, res, ptr):
         return flow._freeze(res.loc(ptr))
     def val(s, v, regs):
@@ -393,15 +411,22 @@ class MiniEval:
                     s.steps += 1
                     if s.steps > s.max_steps: raise EvalUnknown('more than %d steps' % s.max_steps)
                     op = x.op
+                    if x is s.stop:
+                        out.append(('hit', dict(regs), mem)); done = True; break
                     if op == 'phi':
                         for v, lab in zip(x.ops, x.cases):
                             if prev is not None and lab == prev.name: regs[x.res] = s.val(v, regs)
                     elif op == 'alloca': pass
                     elif op == 'load':
                         k = s.key(res, x.ops[0])
-                        regs[x.res] = mem[k] if k in mem else ('sym', ir.loc_str(res.loc(x.ops[0])))
+                        regs[x.res] = mem[k] if k in mem else ('sym', ('mem', k))
                     elif op == 'store':
-                        mem[s.key(res, x.ops[1])] = s.val(x.ops[0], regs)
+                        k = s.key(res, x.ops[1])
+                        v = s.val(x.ops[0], regs)
+                        if s.memo and isinstance(v, tuple): v = ('sym', ('mem', k))      # an unknown value: from now on "what cell k holds"
+                        mem[k] = v
+                        if s.memo and mem.get('__dec__'):
+                            mem['__dec__'] = {b_: v_ for b_, v_ in mem['__dec__'].items() if not s._mentions(b_, k)}
                     elif op in ('sext', 'bitcast', 'ptrtoint', 'inttoptr', 'freeze'):
                         regs[x.res] = s.val(x.ops[0], regs)
                     elif op == 'zext':
@@ -427,6 +452,8 @@ class MiniEval:
                             regs[x.res] = (r & 1) if (isinstance(r, int) and w == 1) else (_signed(r, w) if isinstance(r, int) else r)
                         elif op == 'and' and 0 in (a, b): regs[x.res] = 0
                         elif op == 'mul' and 0 in (a, b): regs[x.res] = 0
+                        elif op == 'xor' and b == 1 and w == 1 and isinstance(a, tuple): regs[x.res] = ('sym', ('not', a[1]))
+                        elif op == 'and' and isinstance(a, tuple) and isinstance(a[1], tuple) and isinstance(b, int): regs[x.res] = ('sym', ('and', a[1], b))
                         else: regs[x.res] = ('sym', '(%s)' % op)
                     elif op == 'icmp':
                         a = s.val(x.ops[0], regs); b = s.val(x.ops[1], regs)
@@ -435,6 +462,7 @@ class MiniEval:
                             sa, sb = _signed(a, w), _signed(b, w); ua, ub = a & ((1 << w) - 1), b & ((1 << w) - 1)
                             regs[x.res] = int({'eq': ua == ub, 'ne': ua != ub, 'sgt': sa > sb, 'sge': sa >= sb, 'slt': sa < sb, 'sle': sa <= sb,
                                                'ugt': ua > ub, 'uge': ua >= ub, 'ult': ua < ub, 'ule': ua <= ub}[x.pred])
+                        elif isinstance(a, tuple) and isinstance(b, int): regs[x.res] = ('sym', ('cmp', x.pred, a[1], b))
                         else: regs[x.res] = ('sym', 'icmp')
                     elif op == 'select':
                         c = s.val(x.ops[0], regs)
@@ -447,9 +475,14 @@ class MiniEval:
                         av = [s.val(a, regs) for a in x.ops]
                         if isinstance(x.callee, str) and x.callee in s.nr:
                             out.append(('exit', x.callee, av, mem)); done = True; break
+                        for a_ in x.ops:      # a local whose address is handed to the callee may be changed by it
+                            da = fn.def_of(a_) if isinstance(a_, tuple) else None
+                            if da is not None and da.op == 'alloca':
+                                k = ('local', da.res); mem.pop(k, None)
+                                if mem.get('__dec__'): mem['__dec__'] = {b_: v_ for b_, v_ in mem['__dec__'].items() if not s._mentions(b_, k)}
                         r = s.hook(x, av, mem) if s.hook is not None else None
                         g = s.prog.fn(x.callee) if isinstance(x.callee, str) else None
-                        if r is None and g is not None and g.blocks and depth < 2 and any(isinstance(a, int) for a in av) and sum(len(b.ins) for b in g.blocks) <= 120:
+                        if r is None and s.inline and g is not None and g.blocks and depth < 2 and any(isinstance(a, int) for a in av) and sum(len(b.ins) for b in g.blocks) <= 120:
                             # small helper with a concrete argument (a status predicate): evaluate it
                             cregs = {}
                             for (ty, nm), a in zip(g.params, av):
@@ -473,7 +506,19 @@ class MiniEval:
                         if not x.ops: nxt = [x.targets[0]]
                         else:
                             c = s.val(x.ops[0], regs)
-                            nxt = [x.targets[0] if c else x.targets[1]] if isinstance(c, int) else list(dict.fromkeys(x.targets))
+                            if isinstance(c, int): nxt = [x.targets[0] if c else x.targets[1]]
+                            elif s.memo and isinstance(c, tuple) and isinstance(c[1], tuple) and x.targets[0] != x.targets[1]:
+                                base, pol = s._norm(c[1]); dec = mem.get('__dec__', {})
+                                if not (isinstance(base, tuple) and base and base[0] in ('mem', 'and')) and not (isinstance(base, str) and base.startswith('%')):
+                                    nxt = list(dict.fromkeys(x.targets))       # no identity: an anonymous value, decide afresh
+                                elif base in dec: nxt = [x.targets[0] if dec[base] == pol else x.targets[1]]
+                                else:
+                                    # fork: first target = condition true
+                                    m2 = dict(mem); m2['__dec__'] = dict(dec); m2['__dec__'][base] = (not pol)
+                                    work.append((fn.bmap[x.targets[1]], 0, blk, dict(regs), m2))
+                                    mem['__dec__'] = dict(dec); mem['__dec__'][base] = pol
+                                    nxt = [x.targets[0]]
+                            else: nxt = list(dict.fromkeys(x.targets))
                         break
                     elif op == 'switch':
                         c = s.val(x.ops[0], regs)
@@ -486,7 +531,9 @@ class MiniEval:
                         if x.res is not None: regs[x.res] = ('sym', op)
                 if done or nxt is None: break
                 for lab in nxt[1:]:
-                    work.append((fn.bmap[lab], 0, blk, dict(regs), dict(mem)))
+                    m2 = dict(mem)
+                    if '__dec__' in m2: m2['__dec__'] = dict(m2['__dec__'])
+                    work.append((fn.bmap[lab], 0, blk, dict(regs), m2))
                 prev = blk; blk = fn.bmap[nxt[0]]; idx = 0
         return out
 
